@@ -34,7 +34,7 @@ import (
 
 func TestC11Refcount(t *testing.T) {
 	e := vlib.GetEnv()
-	n := e.Pick(160, 6000)
+	n := e.Pick(160, 60000)
 	crontabs := []string{"* * * * * *", "*/2 * * * * *", "*/3 * * * * *"}
 	period := map[string]int{"* * * * * *": 1, "*/2 * * * * *": 2, "*/3 * * * * *": 3}
 	ids := []string{"i1", "i2", "i3", "i4"}
@@ -180,7 +180,7 @@ type c11sb struct {
 
 func TestC11System(t *testing.T) {
 	e := vlib.GetEnv()
-	n := e.Pick(40, 600)
+	n := e.Pick(40, 6000)
 	crontabs := []string{"30 1 1 1 *", "31 1 1 1 *", "32 1 1 1 *", "33 1 1 1 *"}
 	vlib.RunCases(t, "C11", "system", n, func(c *vlib.Case) vlib.Result {
 		var res vlib.Result
